@@ -404,6 +404,9 @@ impl<'a> LaxPacketHeaders<'a> {
                     }
                 };
                 result.net = Some(NetHeaders::Arp(arp));
+                // an ARP packet has no payload (same as in the
+                // strict `PacketHeaders`)
+                result.payload = LaxPayloadSlice::Empty;
                 return result;
             }
             _ => {}
